@@ -88,6 +88,15 @@ func runC12(c *Ctx) {
 			f, b := loadedField(stripCall.Call.Args[0])
 			r.Check("R12.2", FuncName(set), "the strip is applied to the owner's current chain with the key being set", stripCall.Pos(),
 				f == props && b == ssa.Value(set.Params[0]) && stripCall.Call.Args[1] == ssa.Value(keyP), "")
+			okAll, whyAll := mustStoreBeforeLeaving(stripCall.Block(), func(in ssa.Instruction) bool {
+				st, is := in.(*ssa.Store)
+				if !is {
+					return false
+				}
+				f, b := storeField(st.Addr)
+				return f == props && b == ssa.Value(set.Params[0])
+			})
+			r.Check("R12.2", FuncName(set), "every path after the strip installs a new chain head", stripCall.Pos(), okAll, whyAll)
 			var remainder ssa.Value
 			for _, rr := range referrersOf(stripCall) {
 				if ex, ok := rr.(*ssa.Extract); ok && ex.Index == 1 {
@@ -250,6 +259,23 @@ func runC12(c *Ctx) {
 				}
 			}
 		})
+	}
+	if column := c.Method(at, true, "Column"); column != nil {
+		for i, ret := range returnsOf(column) {
+			v := results(ret)[0]
+			if isNil(v) {
+				continue
+			}
+			ok := false
+			switch x := v.(type) {
+			case *ssa.UnOp:
+				if ia, isIA := x.X.(*ssa.IndexAddr); isIA {
+					f, _ := loadedField(ia.X)
+					ok = f == cols
+				}
+			}
+			r.Check("R12.5", FuncName(column), fmt.Sprintf("return #%d is the stored column pointer itself (not a copy, not an address into the slice)", i+1), ret.Pos(), ok, v.String())
+		}
 	}
 	if nesc == 0 {
 		_, isPtr := cols.Type().Underlying().(*types.Slice).Elem().(*types.Pointer)
